@@ -24,7 +24,8 @@ Record Defects := mkDefects {
   d_unlock_closed : bool;    (* unlockLowPriorityProposal re-opens / re-closes an already ended proposal *)
   d_logout_inc : bool        (* unrepaired recount rules: per event and result (freeze/activate approved, logout rejected) and the
                                 logout request tests availability AFTER the status change, so it never decrements;
-                                repaired: recount whenever the administrator's availability really changes *)
+                                repaired: recount whenever the administrator's availability really changes, and a
+                                PAUSED proposal gets the new count but is not concluded by it *)
 }.
 Definition cfg_fixed : Defects := mkDefects false false false false false false.
 Definition cfg_faithful : Defects := mkDefects true true true true true true.
@@ -221,7 +222,8 @@ Section Gov.
           | Some th =>
             let st1 := set_prop st i (with_avail p n th) in
             let d := decide (sem (h_expr h)) (d_underflow cfg) (p_approve p) (p_reject p) (h_total h) n in
-            let blocked := h_special h && negb (p_super p) && negb (d_special_updavail cfg) in
+            let blocked := (h_special h && negb (p_super p) && negb (d_special_updavail cfg))
+                           || (negb (d_logout_inc cfg) && (p_status p =? ST_PAUSED)) in
             match d with
             | DOpen => Ok st1
             | _ =>
